@@ -94,6 +94,11 @@ impl Model<'_> {
                 .for_each(|(curr_val, d)| {
                     *curr_val += d;
                 });
+            // A degenerate Jacobian can produce a non-finite step, and `fmax` ignores NaN,
+            // so make sure such a step is never reported as a solution.
+            if current_values.iter().any(|v| !v.is_finite()) {
+                return Err(NonLinearSystemError::DidNotConverge);
+            }
             let step_threshold = config.step_tolerance * (current_inf_norm + config.step_tolerance);
             #[cfg(feature = "verif-hooks")]
             if crate::verif_hooks::trace_enabled() {
